@@ -566,12 +566,10 @@ def run_case(case, ctx):
 
 
 def run(ctx):
-    from .c14 import budget_guard
-
     # the filesystem half goes first: it is the smaller one and must not be starved by the budget
-    if ctx.run_given(budget_guard(ctx, fs_cases(thorough=ctx.tier == "thorough")), run_case,
-                     ctx.n(quick=120, thorough=900)):
-        ctx.run_given(budget_guard(ctx, pure_cases()), run_case, ctx.n(quick=600, thorough=12000))
+    if ctx.run_given(fs_cases(thorough=ctx.tier == "thorough"), run_case,
+                     ctx.n(quick=120, thorough=1500)):
+        ctx.run_given(pure_cases(), run_case, ctx.n(quick=600, thorough=20000))
 
 
 def replay(case, ctx):
